@@ -15,7 +15,7 @@ import json
 from vp.core import Ctx, Fail, HarnessError, SubCheck, Tally
 from vp.purity import (
     CATALOGUE, Bits, BitsVar, Cat, Choice, Const, Flag, Hex, HexVar, Int, ListOf, Map, OneOf, Rec, Seq, Vec, ZygotePair,
-    args_strategy, canonical_calls, entry, fork_run, mode_families, reject_candidates,
+    PIN_DATES, args_strategy, canonical_calls, entry, fork_run, mode_families, reject_candidates, unusual_candidates,
 )
 
 LEVEL = "exploration"
@@ -1190,7 +1190,8 @@ def _(a, T):
 
 
 @entry("mbxml.varints", "mbxml", dict(u=Int(0, 4294967295), s=Int(-2147483647, 2147483647), num=Int(0, 10**7), den=Choice([10, 100, 128, 1000, 16384]), p=Int(1, 3)),
-       doc="write_* / read_* of uintvar, sintvar, ufloatvar, sfloatvar")
+       canon=[{"u": 300, "s": -70000, "num": 1234567, "den": 1000, "p": 3}, {"u": 16384, "s": 64, "num": 98765, "den": 100, "p": 2}],
+       doc="write_* / read_* of uintvar, sintvar, ufloatvar, sfloatvar (directed: fractions of two and three septets)")
 def _(a, T):
     from okdmr.dmrlib.motorola.mbxml import MBXML
 
@@ -1331,8 +1332,9 @@ RULE = (
     "rejected_then_valid.  Object arguments (kaitai IPSC / MMDVM objects, Burst, HDAP, GPSData, MBXML document, DataHeader passed to other entry points): the "
     "object's attribute tree is snapshotted before and compared after the call (argument_object_unchanged); same_object steps build the object once and run "
     "X(obj), X(obj) and X(obj), Y(obj), X(obj) for entries taking the same type of object.  Non-trivial: >= 2 calls of the same group in one history (the later one is compared against its run in a fresh state); distinct by hash of the "
-    "history.  Clock sub-check: the same call lists evaluated in three fresh interpreters (clock pinned 400 days apart + different random streams; same clock but "
-    "PYTHONMALLOC=debug so that uninitialised memory reads 0xCD)."
+    "history.  Clock sub-check: the same call lists evaluated in four fresh interpreters (clocks pinned to 2026-09-26, 1971-01-02, 2099-12-30 + different random "
+    "streams; first clock again with PYTHONMALLOC=debug so that uninitialised memory reads 0xCD); besides all canonical calls and generated histories it feeds "
+    "GPS / LP / MBXML info-time inputs whose dates lie the day before / of / after each clock and in the two-digit years 00, 24..27, 31, 69..72, 98, 99."
 )
 ASSUMPTIONS = [
     "a forked child of a process that has imported the library and executed none of its functions is 'a fresh interpreter state' (import-time state "
@@ -1412,9 +1414,9 @@ def _alone(call) -> dict:
 def _check_catalogue_call(c):
     if not isinstance(c, dict) or c.get("e") not in CATALOGUE or not isinstance(c.get("a"), dict):
         raise HarnessError(f"malformed call in case: {c!r}")
-    if c.get("op") not in (None, "scribble_repeat", "reuse", "same_object") or (c.get("op") == "reuse" and not isinstance(c.get("b"), dict)):
+    if c.get("op") not in (None, "scribble_repeat", "reuse", "same_object", "serialise_later") or c.get("r") not in (None, "little", "frozen") or (c.get("op") == "reuse" and not isinstance(c.get("b"), dict)):
         raise HarnessError(f"malformed compound step in case: {c!r}")
-    if c.get("op") == "same_object" and not (isinstance(c.get("seq"), list) and c["seq"] and all(isinstance(q, dict) and q.get("e") in CATALOGUE and isinstance(q.get("a"), dict) for q in c["seq"])):
+    if c.get("op") in ("same_object", "serialise_later") and not (isinstance(c.get("seq"), list) and c["seq"] and all(isinstance(q, dict) and q.get("e") in CATALOGUE and isinstance(q.get("a"), dict) for q in c["seq"])):
         raise HarnessError(f"malformed same_object step in case: {c!r}")
 
 
@@ -1423,6 +1425,7 @@ COMPOUND = {
     "scribble_repeat": ("scribble_and_repeat_same_result", ["call", "call again after the caller damaged, in place, its argument objects and the buffer(s) the first call returned as its value"]),
     "reuse": ("argument_reuse_same_result", ["call with arguments a", "call with arguments b written in place into the buffers of the first call", "call with a fresh copy of arguments a"]),
     "same_object": ("same_object_again_same_result", None),
+    "serialise_later": ("serialise_later_same_result", None),
 }
 OBJ_EXPECTED = "the attribute tree (recursive, buffers by content) of every object passed as an argument equals the snapshot taken before the call"
 
@@ -1436,6 +1439,11 @@ def _parts(step):
         return [x, {"e": step["e"], "a": step["b"]}, x]
     if step.get("op") == "same_object":
         return [{"e": q["e"], "a": q["a"]} for q in step["seq"]]
+    if step.get("op") == "serialise_later":
+        seq = [{k: q[k] for k in ("e", "a", "r") if k in q} for q in step["seq"]]
+        return seq + seq[::-1]
+    if step.get("r"):
+        x["r"] = step["r"]
     return [x]
 
 
@@ -1462,7 +1470,13 @@ def _judge_step_alone(i, step, rec):
         for k, (r, plain) in enumerate(zip(rec["multi"], _parts(step))):
             B = _alone(plain)
             if r != B:
-                label = labels[k] if labels else f"call {k + 1} of {len(rec['multi'])} ({plain['e']}) with the object argument(s) built once and passed again"
+                if labels:
+                    label = labels[k]
+                elif step["op"] == "serialise_later":
+                    n = len(step["seq"])
+                    label = f"call {k + 1} of {n} ({plain['e']})" if k < n else f"result of call {2 * n - k} of {n} ({plain['e']}) observed / serialised again after all {n} results existed"
+                else:
+                    label = f"call {k + 1} of {len(rec['multi'])} ({plain['e']}) with the object argument(s) built once and passed again"
                 raise Fail(clause, observed={"call_index": i, "entry": plain["e"], "step": label, "first_difference": _first_diff(r, B, "$", "observed", "fresh_state")},
                            expected="the observation the plain call gives in a fresh interpreter state", klass=plain["e"])
 
@@ -1535,27 +1549,30 @@ def _close_zygotes():
 
 
 def oracle_clock(case):
-    """case = {calls: [...]}.  Three fresh interpreters run the calls: Z0 (clock 2020-09-13), Z1 (clock + 400 days, other random
-    streams), Z2 (as Z0 but PYTHONMALLOC=debug: fresh memory is filled with 0xCD).  Every call must be observed identically in Z0
-    and Z2 (a result must not depend on uninitialised memory); every *parsing* call identically in Z0 and Z1."""
+    """case = {calls: [...]}.  Four fresh interpreters run the calls: Z0 (clock pinned to 2026-09-26), Z1 (1971-01-02, other
+    random streams), Z2 (2099-12-30, other random streams), Z3 (as Z0 but PYTHONMALLOC=debug: fresh memory is filled with 0xCD).
+    Every call must be observed identically in Z0 and Z3 (a result must not depend on uninitialised memory); every *parsing*
+    call identically in Z0, Z1 and Z2."""
     calls = case["calls"]
     for c in calls:
         _check_catalogue_call(c)
-    o0, o1, o2 = _zygotes().run(calls, CHILD_TIMEOUT)
+    o0, o1, o2, o3 = _zygotes().run(calls, CHILD_TIMEOUT)
     _LAST.clear()
     _LAST.update(nonparsing_differences=[])
     for i, c in enumerate(calls):
-        if o0[i] != o2[i]:
-            raise Fail("result_independent_of_uninitialised_memory", observed={"call_index": i, "entry": c["e"], "first_difference": _first_diff(o0[i], o2[i], "$", "normal_allocator", "debug_allocator_0xCD_fill")},
+        if o0[i] != o3[i]:
+            raise Fail("result_independent_of_uninitialised_memory", observed={"call_index": i, "entry": c["e"], "first_difference": _first_diff(o0[i], o3[i], "$", "normal_allocator", "debug_allocator_0xCD_fill")},
                        expected="equal observations in two interpreters that differ only in the content of freshly allocated memory", klass=c["e"])
-    for i, c in enumerate(calls):
-        if o0[i] == o1[i]:
-            continue
-        if not CATALOGUE[c["e"]].parse:
-            _LAST["nonparsing_differences"].append(c["e"])
-            continue
-        raise Fail("parsing_independent_of_clock_and_randomness", observed={"call_index": i, "entry": c["e"], "first_difference": _first_diff(o0[i], o1[i], "$", "clock_2020_09_13", "clock_plus_400_days")},
-                   expected="equal observations under clocks 400 days apart and different random streams", klass=c["e"])
+    for other, k in ((o1, 1), (o2, 2)):
+        for i, c in enumerate(calls):
+            if o0[i] == other[i]:
+                continue
+            if not CATALOGUE[c["e"]].parse:
+                if c["e"] not in _LAST["nonparsing_differences"]:
+                    _LAST["nonparsing_differences"].append(c["e"])
+                continue
+            raise Fail("parsing_independent_of_clock_and_randomness", observed={"call_index": i, "entry": c["e"], "first_difference": _first_diff(o0[i], other[i], "$", "clock_" + PIN_DATES[0], "clock_" + PIN_DATES[k])},
+                       expected="equal observations under pinned clocks far apart (" + ", ".join(PIN_DATES) + ") and different random streams", klass=c["e"])
 
 
 # ============================================================================================== generators
@@ -1612,20 +1629,24 @@ OBJECT_ENTRIES = {
 _REJECTED: dict = {}
 
 
-def _rejected(eid: str, keep: int = 4):
-    """The rejected variants of an entry: candidates derived from the argument specs (one argument just outside its spec) that
-    the library actually answers with an exception in a fresh state (observed, cached); at most ``keep`` per entry, one per
-    (argument, exception type)."""
+def _observe_quickly(call):
+    k = _key(call)
+    if k not in _B_CACHE:
+        _B_CACHE[k] = fork_run([call], 20.0)[0]
+    return _B_CACHE[k]
+
+
+def _rejected(eid: str, keep: int = 6):
+    """The rejected variants of an entry: candidates derived from the argument specs (one argument just outside its spec, under
+    every setting of the entry's boolean mode flags) that the library actually answers with an exception in a fresh state
+    (observed, cached); at most ``keep`` per entry, one per (argument + flag setting, exception type)."""
     if eid not in _REJECTED:
         import_library()
         out, sigs = [], set()
         for c in reject_candidates(CATALOGUE[eid]):
             call = {"e": c["e"], "a": c["a"]}
             try:
-                k = _key(call)
-                if k not in _B_CACHE:
-                    _B_CACHE[k] = fork_run([call], 20.0)[0]
-                o = _B_CACHE[k]
+                o = _observe_quickly(call)
             except HarnessError:
                 continue  # the entry script cannot hand the value to the library, or the call does not return in time
             if "raised" in o and (c["arg"], o["raised"][0]) not in sigs and len(out) < keep:
@@ -1633,6 +1654,29 @@ def _rejected(eid: str, keep: int = 4):
                 out.append(call)
         _REJECTED[eid] = out
     return _REJECTED[eid]
+
+
+_UNUSUAL: dict = {}
+
+
+def _unusual(eid: str, keep: int = 8):
+    """The unusual variants of an entry: one enum-coded switch set to a code the spec does not list (unlisted manufacturer id,
+    reserved opcode / format ...), whatever the library answers (accepted with a fallback member, or rejected)."""
+    if eid not in _UNUSUAL:
+        import_library()
+        out = []
+        for c in unusual_candidates(CATALOGUE[eid]):
+            call = {"e": c["e"], "a": c["a"]}
+            try:
+                _observe_quickly(call)
+            except HarnessError:
+                continue
+            out.append(call)
+        if len(out) > keep:  # spread over the candidates (they are grouped by switch)
+            step = (len(out) - 1) / (keep - 1)
+            out = [out[round(i * step)] for i in range(keep)]
+        _UNUSUAL[eid] = out
+    return _UNUSUAL[eid]
 
 
 def _same_object_steps(x):
@@ -1730,11 +1774,28 @@ def history_strategy(max_len: int = 12, probes: bool = True):
         first = st.sampled_from(rej) if rej else call_of[e]
         return st.tuples(st.lists(first, min_size=1, max_size=2), st.lists(group_call[CATALOGUE[e].group], min_size=1, max_size=3)).map(lambda t: t[0] + t[1])
 
+    def unusual_then_ordinary(e):
+        unu = _unusual(e)
+        first = st.sampled_from(unu) if unu else call_of[e]
+        return st.tuples(first, st.lists(st.one_of(group_call[CATALOGUE[e].group], call_of[e]), min_size=1, max_size=3)).map(lambda t: [t[0]] + t[1])
+
+    def serialise_later(g):
+        return st.tuples(st.lists(group_call[g], min_size=2, max_size=4), st.lists(any_call, max_size=2)).map(
+            lambda t: [{"e": t[0][0]["e"], "a": t[0][0]["a"], "op": "serialise_later", "seq": t[0]}] + t[1])
+
+    def with_representation(calls_s):
+        """a quarter of the plain calls get their bit-string arguments as little-endian / frozen bitarrays"""
+        return st.tuples(calls_s, st.lists(st.sampled_from([None, None, None, None, None, None, "little", "frozen"]), min_size=12, max_size=12)).map(
+            lambda t: [({**c, "r": t[1][i % 12]} if t[1][i % 12] and not c.get("op") else c) for i, c in enumerate(t[0])])
+
     def same_object_again(e):
         return st.tuples(call_of[e], st.integers(0, 7), st.lists(any_call, max_size=2)).map(lambda t: [(lambda ss: ss[t[1] % len(ss)])(_same_object_steps(t[0]))] + t[2])
 
     return st.one_of(
         kind("rejected_then_valid", st.sampled_from(ids).flatmap(rejected_then_valid)),
+        kind("unusual_then_ordinary", st.sampled_from(ids).flatmap(unusual_then_ordinary)),
+        kind("serialise_later", st.sampled_from(sorted(groups)).flatmap(serialise_later)),
+        kind("representation", with_representation(st.sampled_from(sorted(groups)).flatmap(lambda g: st.lists(group_call[g], min_size=2, max_size=6)))),
         kind("same_object_again", st.sampled_from(obj_ids).flatmap(same_object_again)),
         kind("scribble_and_repeat", st.tuples(st.lists(any_compound, min_size=1, max_size=3), st.lists(any_call, max_size=3)).map(lambda t: t[0] + t[1])),
         kind("random", st.lists(any_call, min_size=1, max_size=max_len)),
@@ -1891,9 +1952,12 @@ def drv_pairs(ctx: Ctx, sub: SubCheck):
         t.cls(sub.name, "modes_covered")
 
     def entry_work(eid, t: Tally):
-        """per entry: (rejected variant, every first canonical call of the same group) as exact ordered pairs; same_object steps
-        for the canonical calls and modes of object-taking entries"""
-        readers = [c for e, c in sorted(first.items()) if CATALOGUE[e].group == CATALOGUE[eid].group]
+        """per entry: (rejected variant, first canonical call of every entry of the group) and (unusual variant, the same readers
+        + every mode of the entry itself) as exact ordered pairs; same_object steps for object-taking entries; serialise_later
+        steps for entries returning objects; little-endian / frozen bit containers"""
+        e = CATALOGUE[eid]
+        readers = [c for x, c in sorted(first.items()) if CATALOGUE[x].group == e.group]
+        fams = mode_families(e)
         rej = _rejected(eid)
         for R in rej:
             for r in readers:
@@ -1902,8 +1966,15 @@ def drv_pairs(ctx: Ctx, sub: SubCheck):
         t.cls(sub.name, "rejected_variants", len(rej))
         if not rej:
             t.cls(sub.name, "entries_without_rejected_variant")
+        unu = _unusual(eid)
+        own_modes = [f[0] for f in fams]
+        for U in unu:
+            for r in readers + [m for m in own_modes if _key(m) not in {_key(x) for x in readers}]:
+                ctx.run_case(sub.name, oracle_history, {"kind": "unusual_then_ordinary", "calls": [U, r]}, t)
+                t.case(sub.name, nontrivial=True, cls="pair_unusual_then_ordinary")
+        t.cls(sub.name, "unusual_variants", len(unu))
         if any(eid in ents for ents in OBJECT_ENTRIES.values()):
-            xs = [c for c in calls if c["e"] == eid] + [f[0] for f in mode_families(CATALOGUE[eid])]
+            xs = [c for c in calls if c["e"] == eid] + own_modes
             seen = set()
             for x in xs:
                 for step in _same_object_steps(x):
@@ -1911,6 +1982,22 @@ def drv_pairs(ctx: Ctx, sub: SubCheck):
                         seen.add(_key(step))
                         ctx.run_case(sub.name, oracle_history, {"kind": "same_object_again", "calls": [step]}, t)
                         t.case(sub.name, nontrivial=True, cls="step_same_object_" + ("XX" if len(step["seq"]) == 2 else "XYX"))
+        # serialise_later: results of different modes of the entry (and of one unusual variant) created first, all serialised afterwards
+        if e.parse or eid.endswith(".new_default") or eid.endswith(".new"):
+            pool = own_modes + unu[:2]
+            for i in range(0, len(pool), 3):
+                seq = pool[i:i + 3] if len(pool[i:i + 3]) > 1 else pool[i:i + 3] + own_modes[:1]
+                step = {"e": eid, "a": seq[0]["a"], "op": "serialise_later", "seq": seq}
+                ctx.run_case(sub.name, oracle_history, {"kind": "serialise_later", "calls": [step]}, t)
+                t.case(sub.name, nontrivial=len(seq) > 1, cls="step_serialise_later")
+        # representation variants of bit-string arguments: same bit sequence in a little-endian / frozen bitarray
+        if fams and any(isinstance(sp, (Bits, BitsVar)) or getattr(sp, "unit", lambda: "00")() == "0" for sp in e.args.values()):
+            x = fams[0][0]
+            for r in ("little", "frozen"):
+                xr = {**x, "r": r}
+                for pair in ((x, xr), (xr, x), (xr, fams[0][-1])):
+                    ctx.run_case(sub.name, oracle_history, {"kind": "representation", "calls": list(pair)}, t)
+                    t.case(sub.name, nontrivial=True, cls="pair_other_bit_container_" + r)
         if rej:
             t.sample(sub.name, {"kind": "rejected_then_valid", "calls": [rej[0], readers[0]]})
 
@@ -1952,11 +2039,42 @@ def drv_pairs(ctx: Ctx, sub: SubCheck):
                            "(each-choice over opcode / variant / length switches of the argument specs) with two same-shape calls: ordered pairs, argument re-use, scribble-and-repeat")
 
 
+def _clock_cases():
+    """parsers fed with dates on both sides of every pinned clock: the day before / of / after / two days after each clock, and a
+    fixed day in the two-digit years {00, 24, 25, 26, 27, 31, 69, 70, 71, 72, 98, 99}; as GPS data, LP StandardReport (also through
+    HDAP / HRNP / HSTRP wrapping) and MBXML info-time"""
+    import datetime as dt
+
+    days = []
+    for d in PIN_DATES:
+        base = dt.date.fromisoformat(d)
+        days += [base + dt.timedelta(days=k) for k in (-1, 0, 1, 2)]
+    days += [dt.date(1900 + yy if yy >= 69 else 2000 + yy, 6, 15) for yy in (0, 24, 25, 26, 27, 31, 69, 70, 71, 72, 98, 99)]
+    out = []
+    for i, d in enumerate(days):
+        gps = _gps_hex({"valid": True, "h": 11, "mi": 22, "s": 33, "d": d.day, "mo": d.month, "y": d.year % 100, "lat": 50033877, "lon": 14265302, "speed": 12, "dir": 251})
+        frame = _hdap_frame({"svc": 0x08, "rel": False, "op": "a002", "le": False, "payload": "%08x" % (i + 1) + "0a2338fc" + "0000" + gps})
+        out.append({"e": "gps.from_bytes", "a": {"data": gps}})
+        out.append({"e": "lp.from_bytes", "a": {"data": frame}})
+        out.append({"e": "lp.with_gps", "a": {"gps": gps, "rid": i}})
+        if i % 4 == 0:
+            out.append({"e": "hdap.from_bytes", "a": {"data": frame}})
+            out.append({"e": "hrnp.from_bytes", "a": {"data": _hrnp_frame({"version": 4, "block": 0, "op": 0, "src": 0x20, "dst": 0x10, "pn": i, "good": True, "data": frame})}})
+            out.append({"e": "hstrp.from_bytes", "a": {"data": "32420020%04x" % i + "83040001869f040101" + frame}})
+        y = d.year
+        stamp = (y * 2 ** 26 + d.month * 2 ** 22 + d.day * 2 ** 17 + 11 * 2 ** 12 + 22 * 2 ** 6 + 33).to_bytes(5, "big").hex()
+        out.append({"e": "mbxml.from_bytes", "a": {"data": "0d0c22042468ace034" + stamp, "debug": False}})
+        out.append({"e": "mbxml.serialise_doc", "a": {"data": "0d0c22042468ace034" + stamp}})
+        out.append({"e": "mbxml.write_geo", "a": {"lat": 50033877, "lon": 14265302, "t": {"y": y, "mo": d.month, "d": d.day, "h": 11, "mi": 22, "s": 33}}})
+    return out
+
+
 def drv_clock(ctx: Ctx, sub: SubCheck):
     _self_check()
     _close_zygotes()  # a pair started by regression / witness replays in this process must not be inherited by the workers
     strat = history_strategy(max_len=5, probes=False)
     full = _canon()
+    dated = _clock_cases()
 
     def work(shard, t: Tally):
         try:
@@ -1966,6 +2084,10 @@ def drv_clock(ctx: Ctx, sub: SubCheck):
                 t.case(sub.name, key=case, nontrivial=CATALOGUE[c["e"]].parse, cls="single_parse" if CATALOGUE[c["e"]].parse else "single_other")
                 for e in _LAST.get("nonparsing_differences", []):
                     t.cls(sub.name, "nonparsing_call_depends_on_clock_or_randomness:" + e)
+            for c in dated[shard::4]:
+                case = {"kind": "date_near_a_clock", "calls": [c]}
+                ctx.run_case(sub.name, oracle_clock, case, t)
+                t.case(sub.name, key=case, nontrivial=CATALOGUE[c["e"]].parse, cls="date_on_both_sides_of_a_clock")
 
             def rec(case, tt: Tally):
                 tt.case(sub.name, key=case, nontrivial=any(CATALOGUE[c["e"]].parse for c in case["calls"]), cls="history")
@@ -1986,7 +2108,7 @@ def drv_clock(ctx: Ctx, sub: SubCheck):
 SUBCHECKS = [
     SubCheck("history", oracle_history, drv_history, "Hypothesis histories of 1..12 steps (plain calls, rejected-then-valid, scribble-and-repeat, argument re-use, same-object-again): child A (history) vs children B_i (step alone); argument buffers and argument objects unchanged"),
     SubCheck("pairs", oracle_history, drv_pairs, "ordered pairs of canonical calls (writer, reader); every mode of every entry: same-shape ordered pairs, argument re-use, scribble-and-repeat; rejected variant then every entry of the group; same-object steps; same differential oracle"),
-    SubCheck("clock", oracle_clock, drv_clock, "three fresh interpreters: parsing calls agree under clocks pinned 400 days apart and different random streams; all calls agree under a 0xCD-filling allocator"),
+    SubCheck("clock", oracle_clock, drv_clock, "four fresh interpreters: parsing calls agree under clocks pinned to 2026-09-26, 1971-01-02 and 2099-12-30 (inputs with dates on both sides of each clock) and different random streams; all calls agree under a 0xCD-filling allocator"),
 ]
 
 
